@@ -36,6 +36,10 @@ def relational_E(ck, prog, args=None):
                        'evaluations': len(jobs) * 6, 'seed': ck.seed, 'wall_s': round(time.time() - t0, 1), 'bound': f'{len(jobs)} generated pairs x 6 calls'})
     ck.evaluations += len(jobs) * 6
     for j, o in bad[:1]:
+        # the verifier's failed two-run obligations get this concrete pair as their failing input (replayed on the real code)
+        for v in ck.violations:
+            if v['engine'] == 'A' and v.get('witness') is None and ('~rel' in v['obligation']) == (o[0][0] == 'readable_covers_very_readable'):
+                v['witness'] = {'text': j[0], 'bg': j[1], 'large': j[2], 'clause': o[0][0], 'observed': o[0][1]}
         ck.violation(f'ColorPair.make_readable/{o[0][0]} (run-time relational contract)', 'E', o[0][1],
                      {'text': j[0], 'bg': j[1], 'large': j[2], 'clause': o[0][0], 'observed': o[0][1]}, {'kind': 'relational'})
 
@@ -43,15 +47,26 @@ def relational_E(ck, prog, args=None):
 EXPL = ("C16 clause 1 (mode 2 covers mode 1) is decided by engine A: _strategy_relaxed ensures REC(args).success => result == REC(args) where REC is the "
         "function symbol of _strategy_recursive (sound because the strategies are pure: check C15); check_and_fix_contrast dispatches mode 1 to REC and "
         "mode 2 to the relaxed strategy with the SAME arguments (mode1_is_rec, mode2_covers_rec), and make_readable wraps both identically (wraps_caf, "
-        "format_kept). Clause 2 (readable covers very-readable) is relational between two runs; the unary facts it needs (same target, min_lo <= min_hi) "
-        "are proved, but the 2-run product proof is not built: that clause is a BOUNDED run-time check on the real code (engine E), never counted as proved.")
+        "format_kept). Clause 2 (readable covers very-readable) relates two runs: it is decided by the relational driver of engine A (vf/relational.py), "
+        "which executes the real body twice in lock-step (hi = stricter minimum, lo = weaker minimum, all other arguments shared) and discharges a chain of "
+        "relational contracts, each used by its caller as a contract: generate_accessible_color [min_lo <= min_hi => result_lo == result_hi or "
+        "CR(result_lo,bg) >= min_lo; product loop over the tolerance schedule with invariant 'same best candidate'], the three strategies "
+        "[success_hi => success_lo; product loops, `the stricter run never gets ahead`], check_and_fix_contrast [premium_lo => premium_hi gives "
+        "success_hi => success_lo: same target, ordered minima, same strategy], and make_readable returns the flag of check_and_fix_contrast (wraps_caf). "
+        "The bounded run-time relational check on the real code (engine E) stays as cross-check and to make a failed obligation concrete.")
+
+REL = [f'{OPT}:generate_accessible_color~rel', f'{OPT}:_strategy_strict~rel', f'{OPT}:_strategy_recursive~rel', f'{OPT}:_strategy_relaxed~rel',
+       f'{OPT}:check_and_fix_contrast~rel']
 
 
 def run(args):
-    closure = [f'{COL}:ColorPair.make_readable', f'{OPT}:check_and_fix_contrast', f'{OPT}:_strategy_relaxed']
-    ck = standard_check('C16', args, 'other', EXPL, closure, ['shape'], n_quick=60, n_thorough=400, extra=relational_E)
-    ck.assume('_strategy_recursive is deterministic and effect-free (function symbol REC): check C15, engine C',
-              'clause 2 (very_readable => readable) is checked only on generated pairs (bounded)')
+    closure = [f'{COL}:ColorPair.make_readable', f'{OPT}:check_and_fix_contrast', f'{OPT}:_strategy_relaxed'] + REL
+    ck = standard_check('C16', args, 'proof', EXPL, closure, ['shape'], n_quick=60, n_thorough=400, extra=relational_E)
+    ck.assume('the strategies, generate_accessible_color and check_and_fix_contrast are deterministic and effect-free (function symbols; relational contracts '
+              'instantiated between two calls): check C15, engine C',
+              'relational driver: the unary loop invariants of the same functions are assumed on both runs (discharged by checks C01/C02/C04 on the same source)',
+              'composition step make_readable(very_readable=v).flag == check_and_fix_contrast(premium=v).flag is the unary postcondition wraps_caf; the two-run '
+              'statement at make_readable follows by instantiating the relational contract of check_and_fix_contrast (not re-executed as a product)')
     return ck.finish()
 
 
